@@ -19,7 +19,7 @@ Record cli_obs := mkCliObs {
   c_sentinel_ok : option bool; c_rows : list (N * N * json * option f64); c_rows_ok : bool;
   c_bestfile : option json; c_summary : option (f64 * N * N); c_survivors : nat; c_panicked : bool;
   c_timed_out : bool; c_verbose_same : bool; c_has_failed_stdout : bool;
-  c_wall_ms : N; c_limit_ms : option N; c_all_fast_ok : bool; c_guess_json : option json; c_failed_to_reap : bool }.
+  c_wall_ms : N; c_limit_ms : option N; c_all_fast_ok : bool; c_guess_json : option json; c_failed_to_reap : bool; c_deadline_ms : option N }.
 
 (** the spec files of tools/clistream.py *)
 Definition cli_spec (i : nat) : spec :=
@@ -143,6 +143,11 @@ Definition mon_C16 (o : cli_obs) : bool :=
   | None => true
   end.
 
+(** a case with a deadline: evaluations in flight would run for 8 s by themselves; the run must be
+    over long before that (they were killed: at the per-evaluation limit, or on the abort) *)
+Definition within_deadline (o : cli_obs) : bool :=
+  match c_deadline_ms o with Some d => negb (c_timed_out o) && N.leb (c_wall_ms o) d | None => true end.
+
 (** ** C03 through the binary: with a budget and nothing else that can end the run (no target, no
     failing or slow child; a time limit, if any, that cannot fire), exactly N children are started *)
 Definition mon_C03 (o : cli_obs) : bool :=
@@ -161,12 +166,14 @@ Definition mon_C04 (o : cli_obs) : bool :=
 (** ** C06 through the binary: a child that fails (non-zero exit, killed by a signal, output that
     is not a result) ends the run with an error, whatever it printed before *)
 Definition mon_C06 (o : cli_obs) : bool :=
-  negb (any_class o (fun k => match k with KFail => true | _ => false end)) || negb (exit_zero o).
+  (negb (any_class o (fun k => match k with KFail => true | _ => false end)) || negb (exit_zero o)) &&
+  (* ... and the evaluations in flight were told to abort: the run does not wait for them to end by themselves *)
+  within_deadline o.
 
 (** ** C11 through the binary: reading a guess never crashes; the spec's own initial value is
     accepted (evaluations start); bad JSON and non-conforming guesses are rejected before any
     evaluation *)
-Definition mon_C11 (o : cli_obs) : bool :=
+Definition mon_C11_base (o : cli_obs) : bool :=
   negb (c_panicked o) && negb (c_timed_out o) &&
   match c_guess o with
   | GNone => true
@@ -191,6 +198,11 @@ Definition mon_C08 (o : cli_obs) : bool :=
               end
   end.
 
+(** C11: ... and an accepted guess is the value the run starts from (a reported best-seen seeds
+    the next run) *)
+Definition mon_C11 (o : cli_obs) : bool :=
+  mon_C11_base o && match c_guess o with GInit | GOther => mon_C08 o | _ => true end.
+
 (** ** C07 *)
 (** no survivor; and an evaluation over its time limit is rejected and the run goes on: with a
     per-evaluation limit, no target, no time limit for the run, only accepted/rejected scripted
@@ -202,7 +214,7 @@ Definition continues_after_timeout (o : cli_obs) : bool :=
   negb (existsb (fun k => match beh_at o k with (KAccept, false) => true | _ => false end) (seq 0 (n_started o))) ||
   exit_zero o.
 Definition mon_C07 (o : cli_obs) : bool :=
-  negb (c_timed_out o) && Nat.eqb (c_survivors o) 0 && continues_after_timeout o &&
+  negb (c_timed_out o) && Nat.eqb (c_survivors o) 0 && continues_after_timeout o && within_deadline o &&
   (* a run ended by its time limit with evaluations in flight does not turn into a failure to reap them *)
   negb (c_failed_to_reap o).
 
